@@ -29,9 +29,9 @@ func script(beh, dir, name string, delayMs int) string {
 	d := fmt.Sprintf("%d.%03d", delayMs/1000, delayMs%1000)
 	switch beh {
 	case "exit0":
-		return pre + "sleep " + d + "; exit 0"
+		return pre + "sleep " + d + "; echo bye; exit 0"
 	case "exit3":
-		return pre + "sleep " + d + "; exit 3"
+		return pre + "sleep " + d + "; echo bye; exit 3"
 	case "sigusr1":
 		return pre + "sleep " + d + "; kill -USR1 $$; sleep 5"
 	case "trapterm":
@@ -156,7 +156,13 @@ func Run(opt Options) []rec.Event {
 			// output through a pipe and a copying goroutine (as with the emulator's log writers), or none
 			var outw io.Writer
 			if beh == "orphan0" || idx%2 == 0 {
-				outw = &sink{}
+				sk := &sink{}
+				if idx%4 == 0 {
+					// a slow log writer: the last words of a process are still being written when it is already gone
+					// (exited and reaped, its exit not yet noticed by the supervisor) - a Kill in that window succeeds
+					sk.delay = 250 * time.Millisecond
+				}
+				outw = sk
 			}
 			err := sv.Exec(context.Background(), &supvmodel.ExecRequest{Domain: "runtime", Name: name, Path: "/bin/sh", Args: []string{"-c", sc},
 				Env: &map[string]string{"PATH": "/usr/bin:/bin"}, StdoutWriter: outw, StderrWriter: outw})
@@ -246,11 +252,15 @@ func Run(opt Options) []rec.Event {
 
 // sink is an io.Writer that is not a file: os/exec copies the child's output into it through a pipe
 type sink struct {
-	mu sync.Mutex
-	n  int
+	mu    sync.Mutex
+	n     int
+	delay time.Duration
 }
 
 func (s *sink) Write(b []byte) (int, error) {
+	if s.delay > 0 {
+		time.Sleep(s.delay)
+	}
 	s.mu.Lock()
 	s.n += len(b)
 	s.mu.Unlock()
